@@ -332,6 +332,7 @@ class ScandirOrder:
 
 class FaultInjector:
     """persistent faults: (primitive, (st_dev, st_ino)) -> errno, injected by patching os.* in-process"""
+    suspended = False       # the harness's own observations (file listings) are not subject to the faults
     def __init__(self, faults):
         self.faults = {(p, ident): en for p, ident, en in faults}
 
@@ -350,7 +351,7 @@ class FaultInjector:
                 return None
 
         def hit(prim, ident, path):
-            en = faults.get((prim, ident))
+            en = None if FaultInjector.suspended else faults.get((prim, ident))
             if en is not None:
                 code = ERRNO_NAMES.get(en, errno.EIO)
                 raise OSError(code, os.strerror(code), path if isinstance(path, str) else None)
@@ -463,6 +464,7 @@ def run_impl(base, top, opts, allow_create, allow_xdev, ops, order_key, real_fau
             m = mk(allow_create)
         except Exception as e:
             return canon_exc(e, base)
+        failed_at = None
         for op in ops:
             try:
                 if op[0] == 'verify':
@@ -516,7 +518,11 @@ def run_impl(base, top, opts, allow_create, allow_xdev, ops, order_key, real_fau
                     e = m.find_timestamp()
                     out.append(['ok', [impl.entry_sx(e)] if e is not None else []])
                 elif op[0] == 'files':
-                    out.append(['ok', list_real_files(base)])
+                    FaultInjector.suspended = True
+                    try:
+                        out.append(['ok', list_real_files(base)])
+                    finally:
+                        FaultInjector.suspended = False
                 elif op[0] == 'manifests':
                     out.append(['ok', [[k, [impl.entry_sx(e) for e in mf.entries]] for k, mf in m.loaded_manifests.items()]])
                 elif op[0] == 'updated':
@@ -525,7 +531,13 @@ def run_impl(base, top, opts, allow_create, allow_xdev, ops, order_key, real_fau
                     raise RuntimeError('unknown op ' + op[0])
             except Exception as e:
                 out.append(canon_exc(e, base))
+                failed_at = len(out) - 1
                 break
+    if failed_at is not None and ops[failed_at][0] != 'save':
+        # after a failed non-saving operation the remaining file listings are still taken (C10: nothing was written)
+        for op in ops[failed_at + 1:]:
+            if op[0] == 'files':
+                out.append(['ok', list_real_files(base)])
     return ['ok', out]
 
 
